@@ -13,15 +13,28 @@ inductive Kind where
   | produce | try_ | sync
 deriving DecidableEq, Repr
 
-/-- Events (one token each in the line protocol). Errors are opaque tokens; `"0"` is success. -/
+/-- The error a hook or promise receives: its class as far as the properties care, and an opaque tag
+(a hash of the message) so that "the same error" can be compared. -/
+inductive ErrClass where
+  | ok | maxBuffered | other
+deriving DecidableEq, Repr
+
+structure Err where
+  cls : ErrClass
+  tag : Nat
+deriving DecidableEq, Repr
+
+def Err.ok : Err := ⟨.ok, 0⟩
+
+/-- Events (one token each in the line protocol). -/
 inductive Ev where
   | call (id : Id) (k : Kind) (sz : Nat)      -- P: Produce/TryProduce/ProduceSync called
   | hookB (id : Id)                            -- B: OnProduceRecordBuffered
   | admit (id : Id) (n b sz : Nat)             -- A: admitted under the producer mutex (client counters after)
   | block (id : Id)                            -- K
   | unblock (id : Id)                          -- W
-  | hookU (id : Id) (e : String)               -- U: OnProduceRecordUnbuffered
-  | promise (id : Id) (e : String)             -- R
+  | hookU (id : Id) (e : Err)               -- U: OnProduceRecordUnbuffered
+  | promise (id : Id) (e : Err)             -- R
   | release (id : Id) (n b : Nat)              -- D: accounting released (client counters after)
   | ret (id : Id)                              -- X: the produce call returned
   | flushStart (k : Nat)                       -- Fs / As
@@ -45,8 +58,8 @@ structure Rec where
   blocked : Bool := false
   wasBlocked : Bool := false
   sawFull : Bool := false          -- the buffer was at its limit at some point since the call began
-  hookU : Option String := none
-  promised : Option String := none
+  hookU : Option Err := none
+  promised : Option Err := none
   released : Bool := false
   returned : Bool := false
 deriving Repr
@@ -79,7 +92,7 @@ def full (c : Cfg) (occ occBytes sz : Nat) : Bool :=
 def markFull (c : Cfg) (s : St) : List Rec :=
   s.recs.map (fun r => if !r.admitted && r.promised.isNone && full c s.occ s.occBytes r.sz then { r with sawFull := true } else r)
 
-def isMaxBuf (e : String) : Bool := e.startsWith "maxbuf"
+def isMaxBuf (e : Err) : Bool := e.cls == .maxBuffered
 
 /-- The rule an event breaks, if any (`none` = the event is acceptable). Rule names start with the
 property they belong to. -/
@@ -138,6 +151,8 @@ def check (c : Cfg) (s : St) : Ev → Option String
     match find s.recs id with
     | some r =>
       if !r.admitted || r.released || r.hookU.isNone then some "C03.release-out-of-order"
+      -- the accounting is released only after the promise ran (ProduceSync: the harness logs R at return)
+      else if r.kind != .sync && r.promised.isNone then some "C03.released-before-promise"
       else if n + 1 != s.occ || b + r.sz != s.occBytes then some "C03.counter-mismatch-at-release"
       else none
     | none => some "C03.release-unknown-record"
